@@ -1128,7 +1128,7 @@ bool Process::Arguments::read(int& character, String& argument)
     for(const Option* opt = options; opt < optionsEnd; ++opt)
       if(opt->character == character)
       {
-        if(opt->flags & Process::argumentFlag && !(opt->flags & Process::optionalFlag))
+        if(opt->flags & Process::argumentFlag && (!(opt->flags & Process::optionalFlag) || *arg))
         {
           if(!*arg)
           {
